@@ -73,6 +73,7 @@ fn check(plan: &Plan, out: &RunOut) -> CheckOut {
     let v = View::build(out);
     co.nontrivial = !v.recvs.is_empty() && !v.sends.is_empty();
     monitor_leak(&mut co, out);
+    check_no_panic(&mut co, "C07", out);
     check_only_wellformed(&mut co, "C07", &v);
     // the sentinels prove that the storm was processed
     let sentinel_answered = v.recvs.iter().any(|q| q.src.port() == (5000 + SENTINEL_SOCK % 50_000) as u16 && !q.answers.is_empty());
